@@ -239,7 +239,9 @@ def run_sp(ctx, params):
                                 case=["sp", opts, host, list(seq), i],
                             )
                             break
-                    ctx.sig("sp", opts, host, ",".join(o_[0] + o_[-1] for o_ in seq), ",".join(outcomes))
+                    # distinct by configuration and by the sequence of model outcomes (every sequence is judged and counted in
+                    # `sp_sequences`; keeping one signature string per sequence cost gigabytes in the thorough tier)
+                    ctx.sig("sp", opts, host, ",".join(outcomes))
             ctx.sample({"kind": "spec_property", "options": opts, "host": host, "sequences_up_to": length, "example": list(SP_OPS[:length])}, slot=("sp", opts, host) if (o, c, s, d) in ((True, True, False, True),) else ("sp",))
 
 
@@ -392,7 +394,7 @@ def run_cp(ctx, params):
                         case=["cp", opts, [list(x) for x in seq], i],
                     )
                     break
-            ctx.sig("cp", opts, ",".join(a for a, _ in seq), ",".join(outcomes))
+            ctx.sig("cp", opts, ",".join(outcomes))
         ctx.sample({"kind": "classproperty", "options": opts, "sequence_length": length, "example": [f"{a}:{b}" for a, b in CP_OPS[:length]]}, slot=("cp",))
 
 
